@@ -818,6 +818,83 @@ def regenerate_consumer():
     return errors, changed
 
 
+# ======================================================================================= T-reg
+def generate_registry():
+    """Pool.add_worker / restart_workers / _close -> Gen/PoolRegistry.lean (a `PoolRegistry.Cfg`)"""
+    sys.path.insert(0, str(REPO))
+    out = ['import PwVerif.Model.PoolRegistry', '/-! GENERATED by harness/translate.py (T-reg) from /repo - do not edit. -/', 'namespace PwVerif.Gen', 'open PwVerif.PoolRegistry', '']
+    errors = []
+    try:
+        c = getattr(importlib.import_module('pyworkers.pool'), 'Pool')
+        t = Translator(c)
+        # ---- restart_workers: the per-worker loop
+        rw, path = t.func_ast('restart_workers')
+        loop = next(n for n in rw.body if isinstance(n, ast.For))
+        if ast.unparse(loop.target) != '(oldid, w)' or ast.unparse(loop.iter) != 'to_restart':
+            raise Untranslatable(f'{path.name}:{loop.lineno}: unexpected loop in restart_workers')
+        pats = {
+            'queue': r"queue = Pipe\(\)",
+            'restart': r"w\.restart\(timeout=timeout, results_pipe=queue, \*\*kwargs\)",
+            'delw': r"del self\._workers\[oldid\]",
+            'popq': r"self\._queues\.pop\(oldid, None\)",
+            'regw': r"self\._workers\[w\.id\] = w",
+            'regq': r"self\._queues\[w\.id\] = queue\.parent_end",
+        }
+        pos = {}
+        for i, st in enumerate(loop.body):
+            txt = ast.unparse(st)
+            k = next((k for k, rx in pats.items() if re.fullmatch(rx, txt)), None)
+            if k is None:
+                raise Untranslatable(f'{path.name}:{st.lineno}: no pattern for `{txt}` in restart_workers')
+            pos[k] = i
+        if 'restart' not in pos:
+            raise Untranslatable(f'{path.name}: restart_workers does not restart')
+        forget = [pos[k] for k in ('delw', 'popq') if k in pos]
+        restart_first = all(pos['restart'] < f for f in forget)
+        registers = 'regw' in pos and 'regq' in pos and 'queue' in pos and pos['regw'] > pos['restart'] and pos['regq'] > pos['restart']
+        # ---- add_worker: the failure handler
+        aw, _ = t.func_ast('add_worker')
+        tr = next(n for n in aw.body if isinstance(n, ast.Try))
+        if len(tr.handlers) != 1 or tr.handlers[0].type is not None:
+            raise Untranslatable(f'{path.name}:{tr.lineno}: add_worker: expected one bare except clause')
+        hsrc = ast.unparse(ast.Module(body=tr.handlers[0].body, type_ignores=[]))
+        add_forgets = 'self._workers.pop(worker.id, None)' in hsrc and 'self._queues.pop(worker.id, None)' in hsrc
+        add_term = bool(re.search(r"if worker:.*worker\.terminate\(\)", hsrc, re.S))
+        add_reraise = isinstance(tr.handlers[0].body[-1], ast.Raise) and tr.handlers[0].body[-1].exc is None
+        # ---- _close
+        cl, _ = t.func_ast('_close')
+        cw = next(n for n in cl.body if isinstance(n, ast.FunctionDef) and n.name == 'cleanup_worker')
+        guarded = len(cw.body) == 1 and isinstance(cw.body[0], ast.Try) and [ast.unparse(h.type) for h in cw.body[0].handlers] == ['Exception'] and not cw.body[0].finalbody
+        inner = cw.body[0].body if guarded else cw.body
+        isrc = ast.unparse(ast.Module(body=inner, type_ignores=[]))
+        seq_ok = (isrc.index('worker.close()') < isrc.index('alive = not worker.wait(timeout=timeout)')) if ('worker.close()' in isrc and 'alive = not worker.wait(timeout=timeout)' in isrc) else False
+        term_if = None
+        for n in ast.walk(ast.Module(body=inner, type_ignores=[])):
+            if isinstance(n, ast.If) and 'worker.terminate(' in ast.unparse(ast.Module(body=n.body, type_ignores=[])):
+                term_if = n
+        term_ok = (term_if is not None and ast.unparse(term_if.test) == 'alive and (force is not False or not graceful)'
+                   and any(re.fullmatch(r"worker\.terminate\(timeout=timeout, \*\*force_args\)", ast.unparse(x)) for x in term_if.body)) and seq_ok
+        csrc = ast.unparse(cl)
+        passes = bool(re.search(r"force_args = \{\}\n\s*if force is not None:\n\s*force_args\['force'\] = force", csrc))
+        visits = bool(re.search(r"for worker in self\._workers\.values\(\):\n\s*t = threading\.Thread\(target=cleanup_worker, args=\(worker,\)\)\n\s*t\.start\(\)\n\s*_cleanup_jobs\.append\(t\)", csrc)) \
+            and bool(re.search(r"for t in _cleanup_jobs:\n\s*t\.join\(\)", csrc))
+        b = lambda v: str(bool(v)).lower()  # noqa: E731
+        out.append(f'/-- `Pool.restart_workers` ({path.name}:{rw.lineno}), `Pool.add_worker` ({path.name}:{aw.lineno}), `Pool._close` ({path.name}:{cl.lineno}) -/')
+        out.append('def regCfg : Cfg :=\n  { restartBeforeForget := %s, registersNew := %s,\n    addForgets := %s, addTerminates := %s, addReraises := %s,\n    closeVisitsAll := %s, closeGuarded := %s, closeTerminatesIf := %s, closePassesForce := %s }\n'
+                   % (b(restart_first), b(registers), b(add_forgets), b(add_term), b(add_reraise), b(visits), b(guarded), b(term_ok), b(passes)))
+    except Exception as e:
+        errors.append(f'registry: {type(e).__name__}: {e}')
+        out.append('def regCfg : Cfg := ⟨false, false, false, false, false, false, false, false, false⟩\n')
+    out.append('end PwVerif.Gen')
+    return '\n'.join(out) + '\n', errors
+
+
+def regenerate_registry():
+    text, errors = generate_registry()
+    changed = write_if_changed(LEAN / 'PwVerif' / 'Gen' / 'PoolRegistry.lean', text)
+    return errors, changed
+
+
 # ======================================================================================= T-reset
 def generate_poolreset():
     """Pool.run: which bookkeeping fields are re-initialised before the nested closures -> Gen/PoolReset.lean"""
@@ -877,11 +954,13 @@ if __name__ == '__main__':
     print('ShutdownPaths.lean', 'rewritten' if changed6 else 'unchanged')
     errs7, changed7 = regenerate_forward()
     print('Forward.lean', 'rewritten' if changed7 else 'unchanged')
+    errs10, changed10 = regenerate_registry()
+    print('PoolRegistry.lean', 'rewritten' if changed10 else 'unchanged')
     errs9, changed9 = regenerate_consumer()
     print('Consumer.lean', 'rewritten' if changed9 else 'unchanged')
     errs8, changed8 = regenerate_poolreset()
     print('PoolReset.lean', 'rewritten' if changed8 else 'unchanged')
-    errs2 = errs2 + errs3 + errs4 + errs5 + errs6 + errs7 + errs8 + errs9
+    errs2 = errs2 + errs3 + errs4 + errs5 + errs6 + errs7 + errs8 + errs9 + errs10
     for e in errs + errs2:
         print('UNTRANSLATABLE', e)
     sys.exit(1 if errs or errs2 else 0)
